@@ -43,10 +43,16 @@ type Reply struct {
 
 // DrvSession is the descriptor of a driver-level case.
 type DrvSession struct {
-	Family      string     `json:"family"` // random | hash
-	Version     string     `json:"version"`
-	Caps        string     `json:"caps"` // only | both (server advertises both, client prefers Version)
-	Echo        bool       `json:"echo"`
+	Family  string `json:"family"` // random | hash
+	Version string `json:"version"`
+	Caps    string `json:"caps"` // only | both (server advertises both, client prefers Version)
+	Echo    bool   `json:"echo"`
+	// EchoJoin (echoing sessions only): "" = the echoed request is delivered apart from the reply
+	// (ncsim's default mark); "nomark" = ncsim.NoEchoMark, the reply is sent right after the request's
+	// last write; "held" = additionally the echo is withheld until the reply is sent, so that the read
+	// that completes the echo carries the first bytes of the reply (up to the reply's first cut / the
+	// segmentation's choice)
+	EchoJoin    string     `json:"echo_join,omitempty"`
 	Seg         devsim.Seg `json:"seg"`
 	ReadDelayUS int        `json:"read_delay_us"`
 	ReadSize    int        `json:"read_size"`
@@ -203,6 +209,9 @@ func interestingWireCuts(r *rand.Rand, rp Reply, version string, k int) []int {
 func GenDrvSession(r *rand.Rand, big bool) DrvSession {
 	s := DrvSession{Family: "random", Version: []string{"1.0", "1.1", "1.1"}[r.Intn(3)], Caps: []string{"only", "both"}[r.Intn(2)]}
 	s.Echo = r.Intn(3) == 0
+	if s.Echo {
+		s.EchoJoin = []string{"", "nomark", "held", "held"}[r.Intn(4)]
+	}
 	s.ReadDelayUS = []int{50, 250}[r.Intn(2)]
 	s.ReadSize = []int{7, 64, 8192, 65535}[r.Intn(4)]
 	mode := []string{"fixed", "whole", "geom", "mix", "mix"}[r.Intn(5)]
@@ -226,8 +235,10 @@ func GenDrvSession(r *rand.Rand, big bool) DrvSession {
 		if big && i == 0 {
 			bl = 30000 + r.Intn(60000)
 		}
+		pretty := r.Intn(4) == 0 || (s.EchoJoin != "" && r.Intn(2) == 0)
 		for {
-			rp.Payload, rp.Variant = GenPayload(r, PayloadCfg{ID: firstMsgID + i, BodyLen: bl, HashLines: false, V10: s.Version == "1.0"})
+			rp.Payload, rp.Variant = GenPayload(r, PayloadCfg{ID: firstMsgID + i, BodyLen: bl, HashLines: false, V10: s.Version == "1.0",
+				Pretty: pretty, Collide: r.Intn(3) == 0})
 			if s.Version == "1.0" {
 				rp.LFAfter = r.Intn(2) == 0
 				break
@@ -320,6 +331,82 @@ func DeclSessions() []DrvSession {
 	}
 }
 
+// joinDev wraps the server model for the echo-joined families: the reply is sent right after the
+// request's last write (the return that follows the framed request; in 1.1 the second return), and
+// with held the echo of the request is withheld until then, without any mark between echo and reply.
+type joinDev struct {
+	*ncsim.Server
+	held, late bool
+	echoBuf    []byte
+	pending    func(c *devsim.Conn)
+}
+
+func (j *joinDev) send(c *devsim.Conn, emit func(c *devsim.Conn)) {
+	if j.late {
+		j.pending = emit
+		return
+	}
+	emit(c)
+}
+
+// Input implements devsim.Device.
+func (j *joinDev) Input(c *devsim.Conn, b []byte) {
+	if j.held {
+		if len(j.Server.Msgs) == 0 {
+			c.Emit(b) // the hello's echo is not withheld
+		} else {
+			j.echoBuf = append(j.echoBuf, b...)
+		}
+	}
+	had := j.pending != nil
+	j.Server.Input(c, b)
+	if had && j.pending != nil {
+		// the write after the one that completed the request: its last one
+		if j.held {
+			c.Emit(j.echoBuf)
+			j.echoBuf = nil
+		}
+		p := j.pending
+		j.pending = nil
+		p(c)
+	}
+}
+
+// EchoWalkSessions is the dedicated sub-family that walks k over every position of one framed,
+// whitespace-rich reply: the read that completes the echo of the request ends after k bytes of the
+// reply (k = len: the whole reply rides with the echo).
+func EchoWalkSessions() []DrvSession {
+	const perSession = 30
+	body := "\n  <data>\n    <interfaces>  \n      <interface>\n\t<name>eth0</name> \n\t<mtu> 1500 </mtu>\n      </interface>\n\n    </interfaces>\t\n  </data>  \n"
+	var out []DrvSession
+	for _, v := range []string{"1.0", "1.1"} {
+		mk := func(id int) Reply {
+			p := Decl + "\n" + string(ncsim.Reply(id, body)) + "\n"
+			rp := Reply{API: "get", Payload: p, Variant: "none", LFAfter: true}
+			if v == "1.1" {
+				var cuts []int
+				for c := 37; c < len(p); c += 37 {
+					cuts = append(cuts, c)
+				}
+				rp.Mode, rp.Sizes = "explicit", ncwire.Partition(len(p), cuts)
+			}
+			return rp
+		}
+		total := len(mk(firstMsgID).frame(v))
+		for k0 := 1; k0 <= total; k0 += perSession {
+			s := DrvSession{Family: "echowalk", Version: v, Caps: "only", Echo: true, EchoJoin: "held", Seg: devsim.Seg{Mode: "whole", Seed: 1},
+				ReadDelayUS: 50, ReadSize: 65535, Note: fmt.Sprintf("read completing the echo ends after k=%d… bytes of the framed reply", k0)}
+			for i := 0; i < perSession && k0+i <= total; i++ {
+				rp := mk(firstMsgID + i)
+				rp.Cuts = []int{k0 + i}
+				s.Replies = append(s.Replies, rp)
+			}
+			out = append(out, s)
+		}
+	}
+	return out
+}
+
 // ---- running ------------------------------------------------------------------------------------------
 
 type span struct{ start, end int }
@@ -337,7 +424,8 @@ func RunDrv(s DrvSession) mon.Result {
 	if s.Caps == "both" {
 		caps = []string{ncsim.Cap10, ncsim.Cap11}
 	}
-	srv := &ncsim.Server{HelloBytes: ncsim.Hello(caps, "7"), Echo: s.Echo}
+	srv := &ncsim.Server{HelloBytes: ncsim.Hello(caps, "7"), Echo: s.Echo && s.EchoJoin != "held", NoEchoMark: s.EchoJoin == "nomark"}
+	jd := &joinDev{Server: srv, held: s.Echo && s.EchoJoin == "held", late: s.Echo && s.EchoJoin != ""}
 	spans := make([]span, 0, len(s.Replies))
 	harness := ""
 	srv.OnMsg = func(sv *ncsim.Server, c *devsim.Conn, m *ncsim.Msg) {
@@ -355,24 +443,26 @@ func RunDrv(s DrvSession) mon.Result {
 			harness = fmt.Sprintf("negotiated version %s, expected %s", sv.Version, s.Version)
 		}
 		raw := s.Replies[i].frame(s.Version)
-		start := c.Generated()
-		prev := 0
-		for _, k := range s.Replies[i].Cuts {
-			if k > prev && k < len(raw) {
-				c.Emit(raw[prev:k])
-				c.Mark() // forced read boundary
-				prev = k
+		jd.send(c, func(c *devsim.Conn) {
+			start := c.Generated()
+			prev := 0
+			for _, k := range s.Replies[i].Cuts {
+				if k > prev && k < len(raw) {
+					c.Emit(raw[prev:k])
+					c.Mark() // forced read boundary
+					prev = k
+				}
 			}
-		}
-		c.Emit(raw[prev:])
-		c.Mark() // no read carries bytes of two server messages
-		spans = append(spans, span{start, start + len(raw)})
-		if t := s.Replies[i].Trailer; t != "" {
-			c.Emit(frameTrailer(s.Version, t, s.Replies[i].LFAfter))
-			c.Mark()
-		}
+			c.Emit(raw[prev:])
+			c.Mark() // no read carries bytes of two server messages
+			spans = append(spans, span{start, start + len(raw)})
+			if t := s.Replies[i].Trailer; t != "" {
+				c.Emit(frameTrailer(s.Version, t, s.Replies[i].LFAfter))
+				c.Mark()
+			}
+		})
 	}
-	conn := devsim.NewConn(srv, devsim.Config{Seg: s.Seg, KeepData: true})
+	conn := devsim.NewConn(jd, devsim.Config{Seg: s.Seg, KeepData: true})
 	defer conn.Abandon()
 	opts := []util.Option{
 		options.WithCustomTransport(conn),
@@ -517,6 +607,13 @@ func RunDrv(s DrvSession) mon.Result {
 				continue
 			}
 			obs["driver_reads_of_replies"]++
+			if s.Echo && e.Delivered-e.N < sp.start {
+				obs["read_completing_echo_carries_reply_bytes"]++
+				nontrivial = true
+				if c := conn.Stream()[e.Delivered-1]; isWS(c) {
+					obs["read_completing_echo_ends_in_reply_whitespace"]++
+				}
+			}
 			b := e.Delivered - sp.start // boundary after this read, relative to the reply
 			if b > term[0] && b < term[1] {
 				if s.Version == "1.1" {
